@@ -1,32 +1,34 @@
 #!/bin/bash
-# usage: seedconfirm.sh <srcdir with patch.diff + verif_demo_test.go> <pkgdir for demo, e.g. . or bep44> [props to run, default all]
+# usage: seedconfirm.sh <srcdir with patch.diff + verif_demo*_test.go> <pkgdir for demo, e.g. . or bep44> [props to run, default all]
 # Confirms a seeded mutation in a scratch worktree (demo passes without, suite passes with, demo fails with)
 # and runs the static checks against the mutated scratch tree (never against /repo).
+# SKIP_CONFIRM=1: only run the static checks on the mutated scratch tree.
 export GOFLAGS=-mod=mod GOPROXY=off GOSUMDB=off GOTOOLCHAIN=local GOWORK=off
 src=$1; pkg=$2; shift 2
 wt=/tmp/confirm_$$
 git -C /repo worktree add -q --detach $wt HEAD || exit 3
-trap 'git -C /repo worktree remove --force $wt >/dev/null 2>&1' EXIT
-cp $src/verif_demo_test.go $wt/$pkg/ || exit 3
+trap 'git -C /repo worktree remove --force $wt >/dev/null 2>&1; rm -f /tmp/confirm_$$.*' EXIT
 cd $wt
-echo "== demo WITHOUT patch (expect pass)"
-( cd $pkg && timeout 300 go test -vet=off -count=1 -run 'VerifDemo|Verif|Demo' . 2>&1 | tail -5 ); r0=${PIPESTATUS[0]}
-( cd $wt/$pkg && timeout 300 go test -vet=off -count=1 -run 'VerifDemo|Verif|Demo' . >/dev/null 2>&1 ); r0=$?
+demo(){ ( cd $wt/$pkg && timeout 300 go test -vet=off -count=1 -run 'VerifDemo|Verif|Demo' . > /tmp/confirm_$$.demo 2>&1; echo $? > /tmp/confirm_$$.rc ); tail -${1:-6} /tmp/confirm_$$.demo; }
+if [ -z "$SKIP_CONFIRM" ]; then
+  cp $src/verif_demo_test.go $wt/$pkg/ || exit 3
+  echo "== demo WITHOUT patch (expect pass)"; demo 4; r0=$(cat /tmp/confirm_$$.rc)
+  rm $wt/$pkg/verif_demo_test.go
+fi
 git apply $src/patch.diff || { echo "PATCH DOES NOT APPLY"; exit 3; }
-echo "== build + suite WITH patch (expect pass)"
-go build ./... 2>&1 | tail -3
-rm $wt/$pkg/verif_demo_test.go
-go test -vet=off -count=1 ./... 2>&1 | grep -v "no test files" | tail -12; r1=${PIPESTATUS[0]}
-go test -vet=off -count=1 ./... >/dev/null 2>&1; r1=$?
-cp $src/verif_demo_test.go $wt/$pkg/
-echo "== demo WITH patch (expect fail)"
-( cd $wt/$pkg && timeout 300 go test -vet=off -count=1 -run 'VerifDemo|Verif|Demo' . 2>&1 | tail -8 )
-( cd $wt/$pkg && timeout 300 go test -vet=off -count=1 -run 'VerifDemo|Verif|Demo' . >/dev/null 2>&1 ); r2=$?
-rm $wt/$pkg/verif_demo_test.go
-echo "CONFIRM demo_without=$r0 suite_with=$r1 demo_with=$r2  (want 0 0 nonzero)"
+if [ -z "$SKIP_CONFIRM" ]; then
+  echo "== build + suite WITH patch (expect pass)"
+  go build ./... 2>&1 | tail -3
+  go test -vet=off -count=1 ./... > /tmp/confirm_$$.suite 2>&1; r1=$?
+  grep -v "no test files" /tmp/confirm_$$.suite | tail -12
+  cp $src/verif_demo_test.go $wt/$pkg/
+  echo "== demo WITH patch (expect fail)"; demo 10; r2=$(cat /tmp/confirm_$$.rc)
+  rm $wt/$pkg/verif_demo_test.go
+  echo "CONFIRM demo_without=$r0 suite_with=$r1 demo_with=$r2  (want 0 0 nonzero)"
+fi
 echo "== static checks on the mutated tree"
 props="$@"
 if [ -z "$props" ]; then props=$(/verif/bin/dhtlint -gen-manifest | python3 -c "import json,sys; print(' '.join(c['property_id'] for c in json.load(sys.stdin)['checks']))"); fi
-for p in $props; do ( /verif/bin/dhtlint -repo $wt -property $p -tier quick -no-evidence > /tmp/confirm_$$.$p.txt 2>&1 ) & done; wait
-for p in $props; do grep -E "^(VIOLATION|BROKEN)|^C[0-9][0-9] (PASS|VIOLATED|BROKEN)" /tmp/confirm_$$.$p.txt | grep -v " PASS " | cut -c1-500; rm -f /tmp/confirm_$$.$p.txt; done
+for p in $props; do ( /verif/bin/dhtlint -repo $wt -property $p -tier quick -no-evidence > /tmp/confirm_$$.$p.txt 2>&1; echo "exit=$?" >> /tmp/confirm_$$.$p.txt ) & done; wait
+for p in $props; do grep -E "^(VIOLATION|BROKEN)|^C[0-9][0-9] (PASS|VIOLATED|BROKEN)" /tmp/confirm_$$.$p.txt | grep -v " PASS " | cut -c1-500; done
 echo "== done"
